@@ -282,3 +282,6 @@ def send_relative_to_deadline(fl: int, ws: int, ci: int, x: int) -> str:
     """
     # x is an unbounded symbolic integer: the server's "now - last_ping > ping_timeout" splits it exactly at the deadline
     return verdict(_send_vs_deadline(fl, bool(ws), ci, x))
+
+
+from vf.validate.stubs import ALL as VALIDATE  # noqa: E402  (stub-vs-real conformance, run before the obligations)
